@@ -10,6 +10,9 @@
 #include <sstream>
 #include <string>
 #include <vector>
+#include <atomic>
+#include <functional>
+#include <thread>
 
 namespace vf {
 
@@ -124,6 +127,35 @@ inline bool bit_equal(const Eigen::MatrixBase<A>& a, const Eigen::MatrixBase<B>&
         if (std::memcmp(&x, &y, sizeof x) != 0) return false;
     }
     return true;
+}
+
+// Re-entrancy probe for the library's pure utility functions: every job is first evaluated alone (expected value), then
+// all jobs run at the same time, one thread each, `reps` times; returns false when some concurrent evaluation is not
+// bit-identical to the sequential one (hidden shared state: a function-local static buffer, a global cache).  Jobs should
+// compute DIFFERENT values of the SAME shapes, otherwise a shared buffer holds the same numbers for every caller.
+inline bool concurrent_same(const std::vector<std::function<Eigen::MatrixXd()>>& jobs, int reps) {
+    std::vector<Eigen::MatrixXd> expected;
+    for (auto& j : jobs) expected.push_back(j());
+    std::atomic<int> ready(0); std::atomic<bool> go(false), ok(true);
+    std::vector<std::thread> th;
+    for (size_t t = 0; t < jobs.size(); t++)
+        th.emplace_back([&, t]() {
+            ready++;
+            while (!go.load()) {}
+            for (int k = 0; k < reps && ok.load(); k++)
+                if (!bit_equal(jobs[t](), expected[t])) ok = false;
+        });
+    while (ready.load() < static_cast<int>(jobs.size())) {}
+    go = true;
+    for (auto& x : th) x.join();
+    return ok.load();
+}
+// columns of m rotated left by k
+inline Eigen::MatrixXd rotate_cols(const Eigen::MatrixXd& m, long k) {
+    if (m.cols() == 0) return m;
+    Eigen::MatrixXd o(m.rows(), m.cols());
+    for (long j = 0; j < m.cols(); j++) o.col(j) = m.col((j + k) % m.cols());
+    return o;
 }
 
 // label of the API entry point being exercised (printed by the Eigen assertion handler)
